@@ -1,6 +1,7 @@
 """C18 - tokenizers are lossless: token spans tile the abbreviation.
 
-Strings.tla enumerates every string over the abbreviation alphabets up to the bound (and simulates longer ones); the real
+Strings.tla enumerates every string over the abbreviation alphabets up to the bound (and simulates longer ones), Fragments.tla every
+sequence of syntactic fragments up to its bound; the real
 markup tokenizer and the real stylesheet tokenizer (property and value mode) are run on each; every token list
 (type, start, end) or raised error is recorded as a trace and validated by Trace_Tiling.tla.
 """
@@ -9,14 +10,26 @@ import zlib
 
 import common
 
-MARKUP_ALPHA = {"a", "A", "1", "$", "#", "*", "@", "-", "_", "{", "}", "[", "]", "(", ")", ">", "+", "^", ".", "/", "=", "BS", "'", "DQ", " ", ":", "~"}
-CSS_ALPHA = {"a", "f", "t", "1", "0", "$", "#", "@", "-", "{", "}", "(", ")", "+", ".", "/", "BS", "'", "DQ", " ", ":", ",", "!", "%", "p", "~"}
+MARKUP_ALPHA = {"a", "A", "1", "$", "#", "*", "@", "-", "_", "{", "}", "[", "]", "(", ")", ">", "+", "^", ".", "/", "=", "BS", "'", "DQ", " ", ":", "~", "`", "|"}
+CSS_ALPHA = {"a", "f", "t", "1", "0", "$", "#", "@", "-", "{", "}", "(", ")", "+", ".", "/", "BS", "'", "DQ", " ", ":", ",", "!", "%", "p", "~", "`", "|"}
 STRUCT_M = {"a", "$", "#", "*", "@", "-", "_", "^", "{", "}", "[", "]", "(", ")", ">", ".", "=", "BS", "DQ", " ", "1"}
+# syntactic fragments for Fragments.tla (no upper-case letters: BS / DQ are the only names replaced inside a fragment)
+FRAG_M = {"x", "a1", "#i", ".c", ".b_e-m", "[t=v]", "[DQqDQ]", "['q']", "[t]", "[d.]", "[!m=]", "{t}", "{$#}", "*2", "*", ">", "+", "^", "(", ")", "/",
+          "$@^2", "$$@-", ":", "[t={e}]", "{BS}}", " "}
+FRAG_C = {"p", "m", "10", "-", "1.5", "#f", "#fc0.5", "!", "+", "lg(", "rotate(", ")", ",", "px", "%", "$x", "${1:a}", ":", "@k", "'s'", "-a", "e", " ",
+          "DQ", "@", "0", "rgb(0,0,0)"}
 STRUCT_C = {"a", "1", "$", "#", "-", "{", "}", "(", ")", ".", "'", ":", ",", "!", "f", "t", "@", " "}
 
 
+# characters the model writes for classes outside ASCII (TLC prints non-ASCII as "?"): a letter, a digit that is not a decimal
+# (str.isdigit() but not str.isdecimal()), a decimal digit of another script
+SUBST = {'~': 'é', '`': '²', '|': '٣'}
+
+
 def _sub(s):
-    return s.replace('~', 'é')
+    for k, v in SUBST.items():
+        s = s.replace(k, v)
+    return s
 
 
 def _chunk(items):
@@ -112,19 +125,23 @@ def run(out):
     quick = out.tier == 'quick'
     out.rule = ('one trace per (string generated by Strings.tla, tokenizer mode in markup / css-property / css-value); non-trivial = the '
                 'tokenizer returned at least two tokens; distinct by (string, mode)')
-    out.assumptions = ['TLC, Json/IOUtils trusted; "~" in the model stands for a non-ASCII letter']
+    out.assumptions = ['TLC, Json/IOUtils trusted; "~", "`", "|" in the model stand for a non-ASCII letter, a non-decimal digit character and a decimal digit of another script']
     insts = [
         ('markup-exhaustive', 'markup', dict(constants={'Alphabet': MARKUP_ALPHA, 'MaxLen': 3 if quick else 4})),
         ('markup-structural', 'markup', dict(constants={'Alphabet': STRUCT_M, 'MaxLen': 10 if quick else 14},
                                              simulate=3 if quick else 45, depth=10 if quick else 14, seed=out.seed)),
+        # every combination of the numbering / repeater symbols (the modifiers after $ and @ only combine at length 4 and more)
+        ('markup-numbering', 'markup', dict(constants={'Alphabet': {"$", "@", "^", "-", "1", "*", "a"}, 'MaxLen': 5 if quick else 6})),
         ('css-exhaustive', 'css', dict(constants={'Alphabet': CSS_ALPHA, 'MaxLen': 3 if quick else 4})),
         ('css-structural', 'css', dict(constants={'Alphabet': STRUCT_C, 'MaxLen': 10 if quick else 14},
                                        simulate=3 if quick else 45, depth=10 if quick else 14, seed=out.seed + 1)),
     ]
+    insts += [('markup-fragments', 'markup', dict(module='Fragments', constants={'Frags': FRAG_M, 'MaxFrag': 3 if quick else 4})),
+              ('css-fragments', 'css', dict(module='Fragments', constants={'Frags': FRAG_C, 'MaxFrag': 3 if quick else 4}))]
     _model_comparison(out, quick)
     tid = 0
     for name, lang, kw in insts:
-        r = common.run_tlc('Strings', timeout=3000, heap='12g', **kw)
+        r = common.run_tlc(kw.pop('module', 'Strings'), timeout=3000, heap='12g', **kw)
         strings = sorted(set(v['s'] for v in r.vectors()))
         if r.mode == 'simulate':
             strings = common.sample(strings, 15000 if quick else 200000, out.seed, key=str)
@@ -161,7 +178,7 @@ def run(out):
 def _model_comparison(out, quick):
     """conformance of the specification's own tokenizer + parser (AbbrSyntax.tla) with the real code; differences are
     reported as diagnostics: the property is the tiling, not a particular token boundary"""
-    insts = [('markup-model-all-symbols', dict(constants={'Alphabet': MARKUP_ALPHA, 'MaxLen': 2 if quick else 3})),
+    insts = [('markup-model-all-symbols', dict(constants={'Alphabet': MARKUP_ALPHA - {"|"}, 'MaxLen': 2 if quick else 3})),
              ('markup-model-structural', dict(constants={'Alphabet': {"a", "1", "$", "#", "*", "@", "{", "}", "[", "]", "(", ")", ">", "^", ".", "=", "BS", "DQ", " "},
                                                          'MaxLen': 3 if quick else 4}))]
     for name, kw in insts:
